@@ -97,7 +97,7 @@ def run_de(cfg, X, labels, reuse, P):
 def run_twin(case, res, large=False):
     rng = random.Random(case["seed"])
     tier = case.get("tier", "quick")
-    d = 2 if (tier == "quick" or rng.random() < 0.7 or large) else 3
+    d = 3 if (not large and rng.random() < (0.15 if tier == "quick" else 0.3)) else 2
     if large:
         lmin, lmax = rng.choice([(3, 5), (2, 5)])
         steps = rng.randint(2, 3)
@@ -271,13 +271,15 @@ def run_interp(case, res):
     from sparseSpACE.ComponentGridInfo import ComponentGridInfo
     from sparseSpACE.StandardCombi import StandardCombi
     rng = random.Random(case["seed"])
-    d = rng.choice([1, 2])
+    d = rng.choice([1, 2, 2, 3, 4])
     path = rng.choice(["uniform", "dimwise"])
     cfg = {"d": d, "path": path}
     res.sample = {"config": cfg}
     P = [tuple(rng.choice([rng.random(), rng.random(), 0.5, 0.25]) for _ in range(d)) for _ in range(60)]
     if path == "uniform":
-        lv = rng.choice([[7], [8], [6]]) if d == 1 else rng.choice([[4, 4], [5, 3], [3, 5], [4, 3], [5, 4]])
+        lv = rng.choice({1: [[7], [8], [6]], 2: [[4, 4], [5, 3], [3, 5], [4, 3], [5, 4]],
+                         3: [[2, 2, 3], [3, 2, 2], [3, 3, 2], [3, 3, 3], [2, 4, 2], [1, 2, 3]],
+                         4: [[2, 2, 2, 2], [1, 2, 3, 2], [3, 2, 2, 2], [2, 1, 2, 3]]}[d])
         X, labels, style = gen_data(rng, d, demodel.uniform_stripes(lv))
         op = make_op(X, labels, d, masslumping=False, lambd=0.01)
         combi = StandardCombi(np.zeros(d), np.ones(d), operation=op, print_output=False, log_level=100, print_level=100)
@@ -297,7 +299,8 @@ def run_interp(case, res):
         xs = demodel.uniform_stripes(lv)
         N = len(al)
     else:
-        ns = [rng.choice([150, 190, 201, 203, 230])] if d == 1 else rng.choice([[15, 15], [16, 16], [17, 17], [12, 22], [14, 19]])
+        ns = rng.choice({1: [[150], [190], [201], [203], [230]], 2: [[15, 15], [16, 16], [17, 17], [12, 22], [14, 19]],
+                         3: [[5, 6, 7], [8, 8, 7], [9, 8, 7], [4, 9, 5], [7, 7, 8]], 4: [[4, 5, 4, 5], [5, 5, 6, 5], [6, 5, 6, 6], [3, 4, 5, 6]]}[d])
         xs, levs = [], []
         for k in range(d):
             Pk, L = trees.gen_tree(rng, 0.0, 1.0, n_points=ns[k], max_depth=16)
